@@ -871,4 +871,157 @@ theorem obs_sim (U : Universe) (ts : List PTy) (p : Nat) {a b : AShape} (ha : a.
     rw [(toArgP_check U t p 1 a ha).2, (toArgP_check U t p 1 b hb).2]
     exact List.map_inj_left.1 hpost t ht
 
+theorem check_kw_name (U : Universe) (t : PTy) (n m : EvalDispatch.Name) :
+    check U.L t (toArgP U 1 (.kw n)) = check U.L t (toArgP U 1 (.kw m)) ∧
+    check U.L t (toArgP U 1 (.kw n)).evaluated = check U.L t (toArgP U 1 (.kw m)).evaluated := by
+  cases t <;> exact ⟨rfl, rfl⟩
+
+theorem obs_kw_name (U : Universe) (ts : List PTy) (n m : EvalDispatch.Name) :
+    obs U ts (.kw n) = obs U ts (.kw m) := by
+  simp only [obs, Prod.mk.injEq]
+  refine ⟨List.map_congr_left fun t _ => (check_kw_name U t n m).1,
+    List.map_congr_left fun t _ => (check_kw_name U t n m).2, rfl, rfl⟩
+
+/-- `obsShapes` lists every shape that is no mapping rule, up to the name a keyword carries -/
+theorem nonRule_mem (a : AShape) (h : a.isRule = false) : (∃ n, a = .kw n) ∨ a ∈ obsShapes := by
+  cases a with
+  | lit k => right; cases k <;> decide
+  | kw n => left; exact ⟨n, rfl⟩
+  | expr fn k => right; cases fn <;> cases k <;> decide
+  | value k => right; cases k <;> decide
+  | rule _ _ => simp [AShape.isRule] at h
+
+theorem kw_mem_obsShapes : AShape.kw ['a'] ∈ obsShapes := by decide
+
+/-- what `Reps.obsOk` establishes, for EVERY argument shape that is no mapping rule -/
+theorem obsOk_all {U : Universe} {g : Group} {r : Reps} (h : r.obsOk U g = true) (a : AShape)
+    (ha : a.isRule = false) : obs U (groupTypes g) (r.app a) = obs U (groupTypes g) a := by
+  have hall : ∀ b ∈ obsShapes, obs U (groupTypes g) (r.app b) = obs U (groupTypes g) b := by
+    intro b hb
+    have := List.all_eq_true.1 h b hb
+    exact eq_of_beq this
+  rcases nonRule_mem a ha with ⟨n, rfl⟩ | hm
+  · have h1 := hall _ kw_mem_obsShapes
+    have e : r.app (.kw n) = r.app (.kw ['a']) := rfl
+    rw [e, h1]
+    exact obs_kw_name U _ _ _
+  · exact hall a hm
+
+theorem app_rule (r : Reps) (a : AShape) (h : a.isRule = true) : r.app a = a := by
+  cases a <;> first | rfl | simp [AShape.isRule] at h
+
+/-- the argument lists of a call shape and of its representative are similar -/
+theorem toArgs_rep {U : Universe} {g : Group} {r : Reps} (h : r.obsOk U g = true) :
+    ∀ (as : List AShape) (i : Nat),
+    ArgsRel U.L (· ∈ groupTypes g) (toArgs U i as) (toArgs U i (as.map r.app))
+  | [], _ => .nil
+  | a :: as, i => by
+      simp only [List.map_cons, toArgs]
+      refine .cons ?_ (toArgs_rep h as (i + 1))
+      cases hr : a.isRule with
+      | true => rw [app_rule r a hr]; exact sim_refl _
+      | false => exact obs_sim U _ _ hr (obsOk_all h a hr).symm
+
+theorem callRel_rep {U : Universe} {g : Group} {r : Reps} (h : r.obsOk U g = true) (s : CallShape) :
+    CallRel U.L (· ∈ groupTypes g) (toCall U s) (toCall U (s.rep r)) := by
+  refine ⟨?_, .nil, ?_⟩
+  · simp only [callArgs, toCall, CallShape.rep]
+    cases s.receiver with
+    | none => exact toArgs_rep h s.args 0
+    | some k =>
+        simp only [Option.map_some]
+        refine .cons ?_ (toArgs_rep h s.args 0)
+        have := obs_sim U (groupTypes g) 1 (a := .value k) (b := r.app (.value k)) rfl (obsOk_all h (.value k) rfl).symm
+        exact this
+  · simp only [toCall, CallShape.rep]
+    cases s.receiver <;> rfl
+
+theorem mem_dedup {α : Type} [DecidableEq α] (a : α) : ∀ (l : List α), a ∈ EvalDispatch.dedup l ↔ a ∈ l
+  | [] => by simp [EvalDispatch.dedup]
+  | b :: r => by
+      have ih := mem_dedup a r
+      simp only [EvalDispatch.dedup]
+      split
+      · rename_i hc
+        rw [ih]
+        constructor
+        · exact fun h => List.mem_cons_of_mem _ h
+        · intro h
+          rcases List.mem_cons.1 h with rfl | h
+          · simpa using hc
+          · exact h
+      · simp only [List.mem_cons, ih]
+
+theorem groupTypes_mem {g : Group} : ∀ l ∈ g.layers, ∀ fd ∈ l.fns, ∀ p ∈ fd.params, p.ty ∈ groupTypes g := by
+  intro l hl fd hfd p hp
+  unfold groupTypes
+  rw [mem_dedup]
+  simp only [List.mem_flatMap, List.mem_map]
+  exact ⟨l, hl, fd, hfd, p, hp, rfl⟩
+
+theorem ofResolve_choice (ds : List GDef) {o o' : Resolve.Outcome} (h : o.choice = o'.choice) :
+    ofResolve ds o = ofResolve ds o' := by
+  simp only [Outcome.choice, Prod.mk.injEq] at h
+  obtain ⟨h1, h2⟩ := h
+  unfold ofResolve
+  rw [h1]
+  cases hr : o.res with
+  | error e =>
+      cases hr' : o'.res with
+      | error e' => rw [hr, hr'] at h2; cases h2; rfl
+      | ok x => rw [hr, hr'] at h2; cases h2
+  | ok x =>
+      cases hr' : o'.res with
+      | error e' => rw [hr, hr'] at h2; cases h2
+      | ok x' =>
+          rw [hr, hr'] at h2
+          obtain ⟨i, b⟩ := x
+          obtain ⟨i', b'⟩ := x'
+          simp only [Except.map, Except.ok.injEq] at h2
+          subst h2
+          rfl
+
+/-- resolution cannot tell a call shape from its representative -/
+theorem resolveIn_rep {U : Universe} {g : Group} {r : Reps} (h : r.obsOk U g = true) (s : CallShape) :
+    resolveIn U g s = resolveIn U g (s.rep r) :=
+  ofResolve_choice _ (resolve_congr U.L (· ∈ groupTypes g) g.layers (callRel_rep h s) groupTypes_mem)
+
+theorem mem_prod : ∀ {ls : List (List AShape)} {as : List AShape}, as ∈ EvalDispatch.prod ls ↔ Forall₂ (· ∈ ·) as ls
+  | [], as => by
+      simp only [EvalDispatch.prod, List.mem_singleton]
+      constructor
+      · rintro rfl; exact .nil
+      · intro h; cases h; rfl
+  | l :: r, as => by
+      simp only [EvalDispatch.prod, List.mem_flatMap, List.mem_map]
+      constructor
+      · rintro ⟨a, ha, t, ht, rfl⟩
+        exact .cons ha (mem_prod.1 ht)
+      · intro h
+        cases h with
+        | cons ha ht => exact ⟨_, ha, _, mem_prod.2 ht, rfl⟩
+
+theorem rep_mem_shapes (c : Callee) (r : Reps) (p : Pattern) {s : CallShape} (hs : s ∈ p.shapes c) :
+    s.rep r ∈ (p.rep r).shapes c := by
+  simp only [Pattern.shapes, List.mem_flatMap, List.mem_map] at hs ⊢
+  obtain ⟨rv, hrv, as, has, rfl⟩ := hs
+  refine ⟨rv.map r.kind, ?_, as.map r.app, ?_, rfl⟩
+  · simp only [Pattern.rep]
+    rw [mem_dedup]
+    exact List.mem_map.2 ⟨rv, hrv, rfl⟩
+  · simp only [Pattern.rep]
+    rw [mem_prod] at has ⊢
+    rw [forall₂_map_left_iff, forall₂_map_right_iff]
+    exact has.imp fun a l ha => (mem_dedup _ _).2 (List.mem_map.2 ⟨a, ha, rfl⟩)
+
+/-- the three per-site checks give the statement for every call shape of the pattern -/
+theorem pattern_ok {U : Universe} {g : Group} {c : Callee} {r : Reps} {p : Pattern}
+    (hobs : r.obsOk U g = true) (hinv : p.invOk c r = true) (hreps : p.repsOk U g c r = true) :
+    ∀ s ∈ p.shapes c, dispatchOf s = some (resolveIn U g s) := by
+  intro s hs
+  have h1 : dispatchOf s = dispatchOf (s.rep r) := eq_of_beq (List.all_eq_true.1 hinv s hs)
+  have h2 : dispatchOf (s.rep r) = some (resolveIn U g (s.rep r)) :=
+    eq_of_beq (List.all_eq_true.1 hreps _ (rep_mem_shapes c r p hs))
+  rw [h1, h2, resolveIn_rep hobs s]
+
 end Yaql.Props.C04Dispatch
